@@ -178,6 +178,13 @@ def check(run, repo, world):
     r = world.method(HLP + ".DeviceInstanceTypeMapper", "autodiscover")
     fn = r[2]
     F = HLP + ".DeviceInstanceTypeMapper.autodiscover"
+    if any(isinstance(n_, ast.Call) and isinstance(n_.func, ast.Name) and
+           n_.func.id == "map" for n_ in ast.walk(fn)):
+        from ..normal import expand_map_loops
+        from ..inline import acopy as _acm
+        fm = _acm(fn)
+        if expand_map_loops(fm):
+            fn = fm
     fn = normalise(fn, world, HLP, world.cls(
         HLP + ".DeviceInstanceTypeMapper"), primitives=(
             "add_type", "get_type", "clear", "check_bad_rsp"), aliases=False)
@@ -468,6 +475,22 @@ def _check_filters(run, world, mod, F, cfg, ys, fn, setter):
                            src == fn.args.args[2].arg,
                            "the bytes loaded are split from `%s`, not from "
                            "the filter argument" % src, where(mod, n))
+        if not lanes and any(
+                isinstance(c_, ast.Call) and isinstance(
+                    c_.func, ast.Attribute) and c_.func.attr == "to_bytes"
+                for c_ in ast.walk(fn)) and any(
+                    isinstance(y_.arg(0), ast.Subscript)
+                    for nm_ in ("DTR0", "DTR1", "DTR2")
+                    for y_ in by.get(nm_, [])):
+            # the three bytes kept in one buffer that is indexed for the
+            # DTR loads and overwritten element by element on read-back:
+            # which byte an element holds then depends on the stores made
+            # so far, which this rule (names bound once to one byte) does
+            # not follow
+            raise AnalysisError(
+                "%s keeps the filter bytes in an indexed buffer; the lane "
+                "rule reads names bound by unpacking to_bytes(3, order) "
+                "only" % F)
         for name, want in (("DTR0", 0), ("DTR1", 1), ("DTR2", 2)):
             for y in by.get(name, []):
                 a = y.arg(0)
@@ -994,9 +1017,38 @@ def _check_input_value_arith(run, mod, F, fn):
             isinstance(b_.op, (ast.Add, ast.BitOr))]
         comb = [i for i, t in enumerate(txt) if t.startswith(
             "value = value << 8 |") or t.startswith("value = (value << 8)")]
+        # ... or the bytes are collected in answer order and assembled
+        # big-endian once: L = [first]; L.append(chunk); int.from_bytes(L,
+        # "big")
+        apps = [b_.value.func.value.id for b_ in body if isinstance(
+            b_, ast.Expr) and isinstance(b_.value, ast.Call) and isinstance(
+                b_.value.func, ast.Attribute) and
+            b_.value.func.attr == "append" and isinstance(
+                b_.value.func.value, ast.Name) and len(b_.value.args) == 1]
+        listform = False
+        if len(apps) == 1:
+            L_ = apps[0]
+            inits = [n_.value for n_ in ast.walk(fn) if isinstance(
+                n_, ast.Assign) and any(isinstance(t_, ast.Name) and
+                                        t_.id == L_ for t_ in n_.targets)]
+            asm = [n_ for n_ in ast.walk(fn) if isinstance(
+                n_, ast.Assign) and unparse(n_.targets[0]) == "value" and
+                isinstance(n_.value, ast.Call) and unparse(
+                    n_.value.func) == "int.from_bytes" and n_.value.args and
+                unparse(n_.value.args[0]) == L_ and (
+                    [unparse(a_) for a_ in n_.value.args[1:2]] +
+                    [unparse(k_.value) for k_ in n_.value.keywords
+                     if k_.arg == "byteorder"]) == ["'big'"] and not any(
+                         k_.arg == "signed" and not (isinstance(
+                             k_.value, ast.Constant) and
+                             k_.value.value is False)
+                         for k_ in n_.value.keywords)]
+            listform = len(inits) == 1 and isinstance(
+                inits[0], ast.List) and len(inits[0].elts) == 1 and \
+                len(asm) == 1
         st["msb_first"] = st["msb_first"] and reads == 1 and (
             (len(shl) == 1 and len(add) == 1 and shl[0] < add[0]) or
-            len(comb) == 1)
+            len(comb) == 1 or listform)
 
     ok = True
     why = []
